@@ -425,7 +425,7 @@ def write_evidence(check, tier, seed, agg, n_violations, extra=None, canary=None
         'seeds_per_hour': int(agg.runs / wall * 3600),
         'logical_time': agg.logical,
         'faults_and_probes_fired': dict(sorted(agg.stats.items())),
-        'inconclusive_runs': agg.inconclusive,
+        'inconclusive_runs': sum(v for k, v in agg.stats.items() if k.startswith('inconclusive:')),
         'enumerated_cases': getattr(agg, 'enumerated', 0),
         'exhaustive': False,
         'run_digest_xor': '%016x' % agg.digest_xor,
@@ -578,6 +578,10 @@ def drive(check, tier, seed, budget_s=None, workers=None, log=print):
     log('%s: %d runs (+%d enumerated) in %.1fs, %d distinct non-trivial, %d violation(s), %d known finding(s)'
         % (check.ID, agg.runs, getattr(agg, 'enumerated', 0), agg.wall, len(agg.distinct), len(confirmed), len(seen_known)))
     log('fired: ' + json.dumps(dict(sorted(agg.stats.items()))))
+    n_inconclusive = sum(v for k, v in agg.stats.items() if k.startswith('inconclusive:'))
+    if n_inconclusive > max(2, 0.01 * agg.runs):
+        log('HARNESS-ERROR %d of %d runs were inconclusive (watchdog / failed nodes): a broken harness must not look like a pass' % (n_inconclusive, agg.runs))
+        agg.harness_errors.append('too many inconclusive runs')
     for he in agg.harness_errors[:3]:
         log('HARNESS-ERROR exception inside the harness (not a verdict): ' + he)
     if confirmed:
